@@ -58,6 +58,61 @@ type PathQuery struct {
 	// Stop, if set, makes a block terminal (counted as an exit) when it returns true
 	// for an instruction; events up to and including that instruction are counted.
 	Stop func(in ssa.Instruction) bool
+	// Shallow: by default a call (not go/defer) of a function or closure of the same package to which Weight gives
+	// (0,0) counts with what the paths of that callee contribute (entry to return, same Weight and Edge; three levels,
+	// no recursion) - moving part of a function into a helper does not change a count. Shallow switches that off.
+	Shallow bool
+
+	deep *deepState
+}
+
+type deepState struct {
+	memo  map[*ssa.Function]Interval
+	stack []*ssa.Function
+}
+
+// calleeWeight: the events contributed by a call of a same-package function (see Shallow).
+func (q PathQuery) calleeWeight(in ssa.Instruction) (int, int) {
+	cl, ok := in.(*ssa.Call)
+	if !ok || q.Shallow || q.Weight == nil {
+		return 0, 0
+	}
+	callee := cl.Call.StaticCallee()
+	if callee == nil || len(callee.Blocks) == 0 || callee.Pkg == nil && callee.Parent() == nil {
+		return 0, 0
+	}
+	pkgOf := func(f *ssa.Function) *ssa.Package {
+		for f.Parent() != nil {
+			f = f.Parent()
+		}
+		return f.Pkg
+	}
+	if pkgOf(callee) == nil || pkgOf(callee) != pkgOf(q.Fn) {
+		return 0, 0
+	}
+	ds := q.deep
+	if ds == nil {
+		ds = &deepState{memo: map[*ssa.Function]Interval{}}
+	}
+	if callee == q.Fn || len(ds.stack) >= 3 {
+		return 0, 0
+	}
+	for _, f := range ds.stack {
+		if f == callee {
+			return 0, 0
+		}
+	}
+	iv, ok := ds.memo[callee]
+	if !ok {
+		sub := PathQuery{Fn: callee, Weight: q.Weight, Edge: q.Edge, Exit: func(b *ssa.BasicBlock) bool { return ExitOf(b) == ExitReturn },
+			deep: &deepState{memo: ds.memo, stack: append(append([]*ssa.Function{}, ds.stack...), q.Fn)}}
+		iv = sub.Count()
+		ds.memo[callee] = iv
+	}
+	if iv.NoPath {
+		return 0, 0
+	}
+	return iv.Min, iv.Max
 }
 
 // Count evaluates the query.
@@ -92,6 +147,9 @@ func (q PathQuery) Count() Interval {
 			in := b.Instrs[i]
 			if q.Weight != nil {
 				lo, hi := q.Weight(in)
+				if lo == 0 && hi == 0 {
+					lo, hi = q.calleeWeight(in)
+				}
 				n.min += lo
 				if n.max < Inf {
 					n.max += hi
